@@ -495,6 +495,7 @@ import "encoding/binary"
 //@   requires len(mem) < 4294967296 && region(mem) > 0
 //@   ensures  r1 != nil ==> r0 == nil
 //@   ensures  r1 == nil ==> r0 != nil && fresh(r0) && offset + 36 <= len(mem) && r0.offsetInShm == offset && r0.bufferRegionOffsetInShm == uint32(offset + 36)
+//@   ensures[C01,C02] r1 == nil ==> listEnd(r0) == uint32(offset + uint32(36 + mem32(mem, offset + 4) * (mem32(mem, offset + 16) + 20))) && listEnd(r0) <= len(mem) && offset + 36 <= listEnd(r0) && r0.bufferRegionOffsetInShm == offset + 36 && *r0.cap == mem32(mem, offset + 4) && *r0.capPerBuffer == mem32(mem, offset + 16)
 //@   ensures  r1 == nil ==> mem32(mem, offset + 16) + 20 < 4294967296 && 36 + mem32(mem, offset + 4) * (mem32(mem, offset + 16) + 20) < 4294967296 ==> listGeom(r0, mem, offset, mem32(mem, offset + 4), mem32(mem, offset + 16))
 //@   ensures  mem32(mem, offset + 16) + 20 < 4294967296 && offset + 36 + mem32(mem, offset + 4) * (mem32(mem, offset + 16) + 20) <= len(mem) && offset + 36 <= len(mem) ==> r1 == nil
 //@   modifies nothing
@@ -531,10 +532,13 @@ import "encoding/binary"
 //@   ensures  r1 == nil ==> r0 != nil && fresh(r0) && r0.mem == mem && len(r0.lists) == len(listSizePercent)
 //@   ensures  r1 == nil ==> mem16(mem, offset) == len(listSizePercent)
 //@   exit     r1 == nil ==> chainOK && mem32(mem, offset + 4) == lastEnd - 8 && lastEnd <= len(mem)
+//@   ensures[C01,C02] r1 == nil ==> mgrGeom(r0)   // the lists' slot regions are pairwise disjoint, ordered ranges of the mapping
 //@   loop 0 invariant -1 <= rangeindex && rangeindex < len(listSizePercent) && len(freeBufferLists) == rangeindex + 1 && len(freeBufferLists) <= cap(freeBufferLists) && cap(freeBufferLists) == len(listSizePercent)
 //@   loop 0 invariant sumPercent <= 100 && offset + 8 + 36 * (rangeindex + 1) <= hadUsedOffset && hadUsedOffset <= len(mem)
 //@   loop 0 invariant 100 * (hadUsedOffset - offset - 8 - 36 * (rangeindex + 1)) <= bufferRegionCap * sumPercent && bufferRegionCap == len(mem) - offset - 36 * len(listSizePercent) - 8
 //@   loop 0 invariant chainOK && lastEnd == hadUsedOffset
+//@   loop 0 invariant[C01,C02] forall j in [0, rangeindex + 1) trig(freeBufferLists[j]): freeBufferLists[j] != nil && freeBufferLists[j].bufferRegionOffsetInShm == freeBufferLists[j].offsetInShm + 36 && freeBufferLists[j].offsetInShm >= 0 && listEnd(freeBufferLists[j]) <= lastEnd
+//@   loop 0 invariant[C01,C02] forall j in [0, rangeindex + 1) trig(freeBufferLists[j]): forall k in [0, rangeindex + 1) trig(freeBufferLists[k]): j < k ==> listEnd(freeBufferLists[j]) <= freeBufferLists[k].offsetInShm
 //@   loop 0 invariant region(freeBufferLists) == entry(region(freeBufferLists)) && off(freeBufferLists) == entry(off(freeBufferLists))
 //@   loop 0 invariant mem16(mem, offset) == len(listSizePercent)
 //@   loop 0 modifies mem[offset + 8 : len(mem)], freeBufferLists[0 : cap(freeBufferLists)]
@@ -554,10 +558,16 @@ import "encoding/binary"
 //@   ensures  r1 != nil ==> r0 == nil
 //@   ensures  r1 == nil ==> r0 != nil && fresh(r0) && r0.mem == mem && len(r0.lists) == mem16(mem, bufferRegionStartOffset) && len(r0.lists) >= 1
 //@   exit     r1 == nil ==> chainOK
+//@   ensures[C01,C02] r1 == nil ==> mgrGeom(r0)
 //@   exit     r1 != nil ==> len(mem) < 8 + mem32(mem, bufferRegionStartOffset + 4) || mem16(mem, bufferRegionStartOffset) == 0 || listFailed   // fails only when it must
 //@   loop 0 invariant 0 <= i && i <= listNum && listNum == mem16(mem, bufferRegionStartOffset) && listNum >= 1 && len(freeLists) == i && cap(freeLists) == listNum && chainOK && !listFailed && nextOff == uint32(bufferRegionStartOffset + hadUsedOffset)
 //@   loop 0 invariant region(freeLists) == entry(region(freeLists)) && off(freeLists) == entry(off(freeLists))
 //@   loop 0 invariant forall j in [0, i): freeLists[j] != nil
+//@   at call countBufferListMemSize#0 hint[C01,C02] l.offsetInShm == nextOff && a0 == mem32(mem, nextOff + 4) && a1 == mem32(mem, nextOff + 16)
+//@   at call countBufferListMemSize#0 hint[C01,C02] listEnd(l) == uint32(nextOff + uint32(36 + a0 * (a1 + 20))) && listEnd(l) <= len(mem) && nextOff + 36 <= listEnd(l)
+//@   loop 0 invariant[C01,C02] nextOff <= len(mem)
+//@   loop 0 invariant[C01,C02] forall j in [0, i) trig(freeLists[j]): freeLists[j].bufferRegionOffsetInShm == freeLists[j].offsetInShm + 36 && freeLists[j].offsetInShm >= 0 && listEnd(freeLists[j]) <= nextOff
+//@   loop 0 invariant[C01,C02] forall j in [0, i) trig(freeLists[j]): forall k in [0, i) trig(freeLists[k]): j < k ==> listEnd(freeLists[j]) <= freeLists[k].offsetInShm
 //@   loop 0 modifies freeLists[0 : cap(freeLists)]
 
 // lemmaCreateThenMapList: a peer that maps a list created with any (bufferNum, capPerBuffer, offset)
@@ -963,8 +973,24 @@ func lemmaCreateThenMapQueue(data []byte, cap uint32) {
 //@ pure frontOK(l *linkedBuffer): bool = l.sliceList.frontSlice != nil && wfSlice(l.sliceList.frontSlice) && (l.sliceList.len > 1 ==> l.sliceList.frontSlice.nextSlice != nil)
 
 // recycleBuffer (verified under C01/C02 at list level): gives the slice back; the wrapper is zeroed
+// Manager level (C01/C02): a slice handed out by list g (ghost field gowner) goes back to list g and to no
+// other list, whatever the configured sizes are (two classes may share one capacity). mgrGeom: the lists'
+// slot regions are pairwise disjoint ranges of the mapping (established by create/mappingBufferManager).
+//@ ghost field bufferSlice.gowner: int
+//@ pure mgrGeom(b *bufferManager): bool = len(b.lists) >= 1
+//@ |  && (forall i in [0, len(b.lists)) trig(b.lists[i]): b.lists[i] != nil && b.lists[i].bufferRegionOffsetInShm == b.lists[i].offsetInShm + 36 && b.lists[i].offsetInShm >= 0 && listEnd(b.lists[i]) < 4294967296)
+//@ |  && (forall i in [0, len(b.lists)) trig(b.lists[i]): forall j in [0, len(b.lists)) trig(b.lists[j]): i < j ==> listEnd(b.lists[i]) <= b.lists[j].offsetInShm)
+//@ pure ownedBy(l *bufferList, s *bufferSlice): bool = l.valid[slotOf(l, s)] && l.held[slotOf(l, s)] && 0 <= slotOf(l, s) && s.cap == *l.capPerBuffer
+//@ |  && s.bufferHeader != nil && sameMem(s.bufferHeader, l.bufferRegion, slotOf(l, s)) && len(s.bufferHeader) >= 20 && sameMem(s.data, l.bufferRegion, slotOf(l, s) + 20)
 //@ func (*bufferManager).recycleBuffer
 //@   nilable
+//@   requires[C01,C02] b != nil && mgrGeom(b)
+//@   requires[C01,C02] slice != nil && slice.isFromShm ==> 0 <= slice.gowner && slice.gowner < len(b.lists) && wfList(b.lists[slice.gowner]) && ownedBy(b.lists[slice.gowner], slice)
+//@   ensures[C01,C02] slice != nil && old(slice.isFromShm) ==> b.lists[old(slice.gowner)].n == old(b.lists[slice.gowner].n) + 1
+//@   ensures[C01,C02] slice != nil && old(slice.isFromShm) ==> b.lists[old(slice.gowner)].held == store(old(b.lists[slice.gowner].held), old(slotOf(b.lists[slice.gowner], slice)), false)
+//@   loop 0 invariant[C01,C02] -1 <= rangeindex && rangeindex < slice.gowner && slice.isFromShm
+//@   at call (*bufferList).push#0 hint[C01,C02] i == slice.gowner
+//@   loop 0 modifies[C01,C02] nothing
 //@   modifies slice.isFromShm, slice.offsetInShm, slice.data, slice.bufferHeader, slice.cap, slice.writeIndex, slice.readIndex, slice.start, slice.nextSlice, all(M)
 
 // readNextSlice: drops the exhausted front slice. C08: if a zero-copy result may still point into it
